@@ -185,12 +185,13 @@ _IDX = "xandikos.store.index.MemoryIndex."
 PROPS["C10"] = {
     "level": "other",
     "functions": [_IDX + "reset", _IDX + "add_values", _IDX + "get_values", _IDX + "available_keys",
-                  "xandikos.store.index.AutoIndexManager.find_present_keys"],
+                  "xandikos.store.index.AutoIndexManager.find_present_keys", "xandikos.store.Store.iter_with_filter"],
     "explanation": "The in-memory index is under contract (reset forgets every covered etag, add_values records exactly the given values "
                    "for one etag, get_values returns exactly what was recorded) and so is the index manager (the index path is chosen only "
                    "when every key group of the filter is indexed, otherwise the index is untouched or reset to a superset of its keys "
                    "with nothing covered); that the index-side filter evaluation agrees with the object-side one for every filter, and "
-                   "Store.iter_with_filter / _iter_with_filter_indexes themselves, are covered by the bounded history explorer only. One deviation is a known finding (component time-range over an "
+                   "the two evaluation loops (Store._iter_with_filter_indexes / _naive, ASSUMED interfaces for the verified path choice in "
+                   "Store.iter_with_filter) are covered by the bounded history explorer only. One deviation is a known finding (component time-range over an "
                    "object with several components of the filtered type).",
     "replay": {f: INDEX_EXPLORE for f in [_IDX + "reset", _IDX + "add_values", _IDX + "get_values", _IDX + "available_keys",
                                           "xandikos.store.index.AutoIndexManager.find_present_keys"]},
@@ -237,6 +238,8 @@ PROPS["C18"] = {
                  G + "TreeGitStore.subdirectories": {"driver": DISCOVERY, "bound": _DISC_BOUND}},
     "bounded_always": {"xandikos.web.main": {"driver": DISCOVERY, "bound": _DISC_BOUND}},
 }
+PROPS["C10"]["replay"]["xandikos.store.Store.iter_with_filter"] = INDEX_EXPLORE
+PROPS["C10"]["standins"]["xandikos.store.Store.iter_with_filter"] = {"driver": INDEX_EXPLORE, "bound": _IDX_BOUND}
 PROPS["C13"] = {
     "level": "proof",
     "functions": [WEB + "XandikosBackend._map_to_file_path", WEB + "XandikosBackend.get_resource",
